@@ -104,6 +104,22 @@ CHECKS = {
               "per run; 2 shanks x 2 windows recordings (the protocol is independent of the sizes)."),
         technique="TLA+ run-history state machine with crash actions checked with TLC + interruption-injected trace validation of real converter histories",
     ),
+    "C13": dict(
+        category="model_checking",
+        text=("TLC checks spec/sys/WaveformExtract.tla for every spike train of a box (times at both file edges, on chunk "
+              "boundaries, duplicates across units) x max_wf x chunk size x every admissible per-unit selection (the spec does not "
+              "depend on NumPy's generator) x every interleaving of the chunk jobs: each unit gets min(max_wf, #valid) distinct "
+              "valid spikes, waveform_index is the (cluster, sample) rank, every traces row is written exactly once and holds the "
+              "window of its own spike whatever the chunk size and schedule. Real extract_wfs_cbin calls (loky workers; guarded "
+              "hook in write_wfs_chunk) on NP1/NP2 recordings with distinguishable samples are validated by "
+              "spec/trace/WaveformTrace.tla: the table the code chose, every recorded job (rows, local coordinates, snippet "
+              "bounds) and projections of the saved files (each traces row == source window on the ascending, NaN-padded "
+              "neighbour channels; channel map; templates; loader); identical files are required across (chunk, n_jobs)."),
+        design_ref="DESIGN.md §4 C13",
+        note=("Trusted: TLC; harness/c13.py projections; the reader (C01) for the source traces; preprocess_steps=[] so that "
+              "equality with the source is literal; trains sorted, no duplicate (sample, cluster)."),
+        technique="TLA+ model of table/chunk-job/row bookkeeping checked with TLC + trace validation of hook-recorded real extractions",
+    ),
 }
 
 NOT_YET = {}
